@@ -879,7 +879,7 @@ fn run_subject(r: &mut Run, fam: &str, variant: &str, route: &str, seed: u64) ->
 fn drive(a: &Args) {
     let mut tr = Tracer::new(&a.out, "rs");
     let ins = inputs(a);
-    let budget = a.get_u64("file_ints", 450_000);
+    let budget = a.get_u64("file_ints", 1_100_000);
     let mut stats: BTreeMap<String, SubjStat> = BTreeMap::new();
     let mut ints_in_file = 0u64;
     let mut answers = 0u64;
@@ -890,8 +890,10 @@ fn drive(a: &Args) {
         }
         let (fam, variant, route) = split_name(&name);
         let st = stats.entry(name.clone()).or_default();
-        // a new file per subject
-        tr.max_events = 0;
+        // a new file per subject, unless the current file is still small (JVM start-up costs ~3 CPU seconds)
+        if ints_in_file >= 200_000 {
+            tr.max_events = 0;
+        }
         for (vi, inp) in ins.iter().enumerate() {
             if !applicable(&fam, inp) {
                 continue;
